@@ -368,6 +368,49 @@ def h_flow(case: int) -> bool:
     return ok
 
 
+# ---------------------------------------------------------------- several devices in one process
+# devices of ONE model whose implicit text differs (Nexus 9500: the 'spine1' tag), processed one after another the way a
+# multi-host run does: every device is completed with its OWN defaults, whatever was processed before it
+SEQ_DEVS = [("Cisco Nexus 9508", ("spine1",)), ("Cisco Nexus 9508", ()), ("Cisco Nexus 9316", ())]
+SEQ_PERMS = [(0, 1, 2), (1, 0, 2), (2, 1, 0), (0, 2, 1)]
+SEQ_TREES = [(), ("interface mgmt0",), ("interface Ethernet1/1",), ("interface Loopback0",), ("interface port-channel1",), ("router bgp 1",),
+             ("interface Ethernet1/1", "no shutdown"), ("interface mgmt0", "shutdown")]
+NSEQ = len(SEQ_PERMS) * len(SEQ_TREES)
+
+
+def check_sequence(pi, ti):
+    from annet import implicit
+    from annet.annlib.netdev.views.hardware import HardwareView
+    t = odict()
+    cur = t
+    for r_ in SEQ_TREES[ti]:
+        cur = cur.setdefault(r_, odict())
+    nt = False
+    for di in SEQ_PERMS[pi]:
+        model, tags = SEQ_DEVS[di]
+        dev = _Dev(HardwareView(model, None), tags)
+        c = {"hw": "%s tags=%s" % (model, list(tags)), "rules": implicit.compile_rules(dev), "raw": implicit._implicit_tree(dev)}
+        ok, detail, kind, n, _m, _a = check_tree(c, copy.deepcopy(t))
+        nt = nt or n
+        if not ok:
+            return False, dict(detail or {}, processed=[list(SEQ_DEVS[j]) for j in SEQ_PERMS[pi]], device=list(SEQ_DEVS[di])), \
+                "sequence:" + kind, True
+    return True, None, None, nt
+
+
+def h_sequence(case: int) -> bool:
+    """
+    pre: 0 <= case < NSEQ
+    post: _ == True
+    """
+    c = pick(case, NSEQ)
+    with NoTracing():
+        pi, ti = digits(c, [len(SEQ_PERMS), len(SEQ_TREES)])
+        ok, detail, kind, nt = check_sequence(pi, ti)
+        rt.record({"sequence": [pi, ti]}, ok, [pi, ti] if nt else None, detail=detail, fingerprint="C17:%s" % kind)
+    return ok
+
+
 def z_spaces():
     """report sizes and z3 synthesis cost per hardware (evidence only)"""
     out = {}
@@ -403,11 +446,15 @@ def plan(tier):
     for i, (m, _) in enumerate(HWS):
         obs.append(dict(name="implicit[%s]" % m, func="h_implicit", shards=2 if q else 8, timeout=280 if q else 2400, env={"VT_HW": i}))
     obs.append(dict(name="gen.flow", func="h_flow", shards=2, timeout=200))
+    obs.append(dict(name="devices.sequence", func="h_sequence", shards=1, timeout=200))
     obs.append(dict(name="twin", func="h_twin", shards=1, timeout=100, expect="refuted"))
     return obs
 
 
 def replay(obligation, case):
+    if "sequence" in case:
+        ok, detail, kind, _ = check_sequence(*case["sequence"])
+        return {"ok": ok, "detail": detail, "fingerprint": "C17:%s" % kind}
     if "flow" in case:
         ok, detail, kind, _ = check_flow(*case["flow"])
         return {"ok": ok, "detail": detail, "fingerprint": "C17:gen-flow:%s" % kind}
